@@ -46,6 +46,50 @@ NONTERM = [Y5, YX, EC, SS, SP, SR, SN, IN]
 TERM = [RV, YAR, AY, SSP]
 FN_NONTERM = [SS, SP, SR, IN]
 
+# -- audit widening ---------------------------------------------------------
+# falsy / None values wherever a value is recorded, yielded or sent
+Y0 = ['yield', 0]
+YN = ['yield', None]
+YF = ['yield', False]
+AY0 = ['ay', 0]
+AYN = ['ay', None]
+YAR0 = ['yar', 0]
+YARN = ['yar', None]
+# other ways for a body to fail: a BaseException that is not an Exception
+# (class _Abort below), the library's own stream-end exceptions raised by hand
+RA = ['raise', 'Abort']
+RS = ['raise', 'StopStream']
+RP = ['raise', 'PausedStream']
+RK = ['raise', 'KeyError']
+# the remaining life-cycle methods called from inside bodies
+SPL = ['call', 'self', 'play', 'c']
+SRS = ['call', 'self', 'resume', 'c']
+ISTOP = ['call', 'inner', 'stop', 'c']
+IPAUSE = ['call', 'inner', 'pause', 'c']
+IRESUME = ['call', 'inner', 'resume', 'c']
+IRESET = ['call', 'inner', 'reset', 'c']
+IPLAY = ['call', 'inner', 'play', 'c']
+# embedding: yield from inner.__embed__(last) / yield from embed(inner, last)
+EM = ['embed', 'inner']
+EMF = ['embed', 'inner', 'func']
+
+VAL_NONTERM = [Y0, YN, EC]
+VAL_TERM = [AY0, AYN, YAR0, YARN, RA, RS]
+# inner.pause and inner.play never meet in one body: play() on a paused
+# routine is a don't-care that needs the observed state (see routine_ref)
+INS_A = [YX, IN, ISTOP, IPAUSE, IRESUME, IRESET]
+INS_B = [YX, IN, IPLAY, ISTOP, IRESET, SPL, SRS]
+INS_TERM = [RV, AY]
+
+
+class _Abort(BaseException):
+    """A failure that is not an Exception (as KeyboardInterrupt, SystemExit,
+    GeneratorExit, asyncio.CancelledError are); private so that it cannot be
+    confused with a real interrupt of the worker."""
+
+
+RAISES = {'ValueError': ValueError, 'KeyError': KeyError, 'Abort': _Abort}
+
 INNERS = {
     'y': {'kind': 'gen', 'runs': [[['yield', 'i']]]},
     'rv': {'kind': 'gen', 'runs': [[RV]]},
@@ -59,6 +103,23 @@ INNERS = {
                          ['call', 'outer', 'reset', 'c']]]},
     'fn': {'kind': 'fn', 'runs': [[]]},
     'yy': {'kind': 'gen', 'runs': [[['yield', 'i'], ['yield', 0.5], AY]]},
+    # audit: ends by exhaustion after two values / records a falsy terminal
+    # value / fails with a non-Exception / pauses-stops its caller's caller
+    'y2': {'kind': 'gen', 'runs': [[['yield', 'i'], ['yield', 0]]]},
+    'ay0': {'kind': 'gen', 'runs': [[['yield', None], AY0]]},
+    'ra': {'kind': 'gen', 'runs': [[['yield', 'i'], RA]]},
+    # three levels: inner steps a third routine which calls back the first
+    'mid': {'kind': 'gen', 'runs': [[['call', 'third', 'next', 'p'],
+                                     ['yield', 'm'],
+                                     ['call', 'third', 'next', 'c'],
+                                     ['yield', 'n']]]},
+}
+
+THIRDS = {
+    'mid': {'kind': 'gen', 'runs': [[['call', 'outer', 'stop', 'c'],
+                                     ['call', 'inner', 'pause', 'c'],
+                                     ['yield', 't'],
+                                     ['call', 'outer', 'reset', 'c'], RV]]},
 }
 
 
@@ -83,15 +144,95 @@ def _uses_inner(runs):
     return any(a[0] == 'call' and a[1] == 'inner' for s in runs for a in s)
 
 
-def _body(kind, runs, inner=None, param=None):
+def _body(kind, runs, inner=None, param=None, **flags):
+    """flags (audit): ctor='decorator'|'run'|'drun' (how the outer routine is
+    made: routine(f), Routine.run(f), routine.run()(f); default Routine(f)),
+    iter=True (the external next() is the builtin next(r), i.e. __next__),
+    clk='tempo'|'app' (external play / resume pass an explicit clock and
+    quant)."""
     echo = any(a == EC for s in runs for a in s)
     b = {'outer': {'kind': kind, 'runs': runs,
                    'param': echo if param is None else param}}
     if inner:
         b['inner'] = INNERS[inner]
+        if inner in THIRDS:
+            b['third'] = THIRDS[inner]
     if echo:
         b['send'] = True
+    b.update(flags)
     return b
+
+
+def _uniq(bodies):
+    seen = set()
+    out = []
+    for b in bodies:
+        k = core.canon(b)
+        if k not in seen:
+            seen.add(k)
+            out.append(b)
+    return out
+
+
+def audit_bodies(which):
+    """Bodies added by the audit (appended to the menu of each tier)."""
+    out = []
+    n = 2 if which == 'quick' else 3
+    # 1. falsy / None values, non-Exception failures, hand-raised StopStream
+    for s in scripts(n, VAL_NONTERM, VAL_TERM):
+        out.append(_body('gen', [s]))
+    for s in ([YF, Y0, AY0], [YN, YF, YARN], [Y0, Y0, RA], [EC, YF, AYN],
+              [YX, RP], [YX, RK], [RP], [RS]):
+        out.append(_body('gen', [s]))
+    for a, b in (([AY0], [YX]), ([AYN], [YX]), ([AY0], [AY]), ([YAR0], [AY0]),
+                 ([RA], [YX, AY0]), ([Y0, AY0], []), ([RS], [YN])):
+        out.append(_body('gen', [a, b]))
+    for s in ([RA], [RS], [RP], [RK], [AY0], [AYN], [YAR0], [YARN],
+              [IN, IN], [IN, IN, AY0], [SS, RA], [INC, RS]):
+        out.append(_body('fn', [s], 'y' if _uses_inner([s]) else None))
+    out.append(_body('fn', [[AY0], []]))
+    out.append(_body('fn', [[RA], [AY0]]))
+    # 2. life-cycle methods of the inner routine / of itself from the body
+    for alpha in (INS_A, INS_B):
+        for s in scripts(n, alpha, INS_TERM):
+            if _uses_inner([s]):
+                for i in (('y', 'yy') if len(s) <= 2 else ('yy',)):
+                    out.append(_body('gen', [s], i))
+            else:
+                out.append(_body('gen', [s]))
+    for s in ([IPLAY], [IPLAY, IN], [ISTOP, IN], [IPAUSE, IN], [SPL, SRS]):
+        out.append(_body('fn', [s], 'y' if _uses_inner([s]) else None))
+    # 3. inner routines that fail with a non-Exception / record 0 / end
+    for s in ([IN], [INC, YX], [INC, INC, EC], [IN, IN, IN]):
+        for i in ('y2', 'ay0', 'ra'):
+            out.append(_body('gen', [s], i))
+    # 4. embedding (Stream.__embed__ and embed()) of every inner body
+    inn = ('y', 'rv', 'ay', 'yy', 'y2', 'ay0', 'ra', 'onext', 'ostop',
+           'opause', 'fn')
+    for s in ([EM], [EM, YX], [EC, EM, EC], [EMF, EC], [EM, EMF],
+              [IN, EM], [EM, AY0], [ISTOP, EM, YX], [IPAUSE, EM, YX]):
+        for i in (inn if len(s) <= 2 or which != 'quick' else ('y2', 'ra')):
+            out.append(_body('gen', [s], i))
+    # 5. three levels of nesting with call-backs to both callers
+    for s in ([IN, YX], [INC, INC, EC], [IN, SS, IN], [EM, YX]):
+        out.append(_body('gen', [s], 'mid'))
+    # 6. other entry points: decorator, Routine.run, routine.run, __next__,
+    #    play / resume with an explicit clock and quant
+    for s in ([Y5, YX, AY], [EC, Y0, RV], [YX, YAR0], [SS, SP, SR],
+              [YN, RA], [Y5, Y5, Y5]):
+        for fl in ({'ctor': 'decorator'}, {'ctor': 'run'}, {'ctor': 'drun'},
+                   {'iter': True}, {'clk': 'tempo'}, {'clk': 'app'},
+                   {'ctor': 'run', 'clk': 'tempo', 'iter': True}):
+            out.append(_body('gen', [s], **fl))
+    for s in ([], [AY0], [RV], [IN]):
+        for fl in ({'ctor': 'run'}, {'ctor': 'drun', 'iter': True},
+                   {'clk': 'tempo'}):
+            out.append(_body('fn', [s], 'y' if _uses_inner([s]) else None,
+                             **fl))
+    for s in ([IN, Y5, IN], [IPLAY, Y5, IN], [EM, Y5]):
+        for fl in ({'clk': 'tempo'}, {'ctor': 'run', 'clk': 'app'}):
+            out.append(_body('gen', [s], 'yy', **fl))
+    return out
 
 
 RUN_SCRIPTS = [[AY], [YX], [YAR], [RV], [], [Y5, AY], [SS, YX], [EC, AY]]
@@ -99,6 +240,16 @@ RUN_SCRIPTS = [[AY], [YX], [YAR], [RV], [], [Y5, AY], [SS, YX], [EC, AY]]
 
 def life_bodies(which):
     """The body menu of one tier (deterministic order, simplest first)."""
+    out = []
+    if which.startswith('audit-'):
+        base = {core.canon(b) for b in
+                _life_bodies_base(which[len('audit-'):])}
+        return [b for b in _uniq(audit_bodies(which[len('audit-'):]))
+                if core.canon(b) not in base]
+    return _life_bodies_base(which)
+
+
+def _life_bodies_base(which):
     out = []
     if which == 'quick':
         for s in scripts(2, NONTERM, TERM):
@@ -151,15 +302,26 @@ def life_bodies(which):
 # ---------------------------------------------------------------------------
 
 class RealWorld:
-    def __init__(self, specs, conds=(), fvs=(), flags=(), cond_init=None):
+    def __init__(self, specs, conds=(), fvs=(), flags=(), cond_init=None,
+                 opts=None):
         from sc3.base.main import main
         from sc3.base import stream as stm
-        from sc3.base.clock import SystemClock
+        from sc3.base.clock import SystemClock, AppClock, TempoClock
         main.reset()
         main.current_tt = main.main_tt          # a previous case may have
         self.main = main                        # left it corrupted
         self.stm = stm
         self.clock = SystemClock
+        self.opts = opts or {}
+        self.played_at_creation = []
+        # the explicit (clock, quant) arguments of external play / resume
+        clk = self.opts.get('clk')
+        self.xclock = ()
+        if clk == 'tempo':
+            self.xclock = (TempoClock(2.0), 1)
+        elif clk == 'app':
+            self.xclock = (AppClock, None)
+        self.clocks = [SystemClock, AppClock] + list(self.xclock[:1])
         self.runs = {n: 0 for n in specs}
         self.log = []           # [routine, action index, outcome] in bodies
         self.problems = []      # invariant violations seen inside bodies
@@ -174,7 +336,20 @@ class RealWorld:
         self.routines = {}
         self.names = {}
         for n, s in specs.items():
-            r = stm.Routine(self._func(n, s))
+            ctor = self.opts.get('ctor') if n == 'outer' else None
+            f = self._func(n, s)
+            if ctor == 'decorator':
+                r = stm.routine(f)
+            elif ctor == 'run':
+                r = stm.Routine.run(f, *self.xclock)
+            elif ctor == 'drun':
+                r = stm.routine.run(*self.xclock)(f)
+            else:
+                r = stm.Routine(f)
+            if type(r) is not stm.Routine:
+                raise core.HarnessError(f'{ctor} made a {type(r).__name__}')
+            if ctor in ('run', 'drun'):
+                self.played_at_creation.append(n)
             self.routines[n] = r
             self.names[id(r)] = n
             r.__awake__ = self._spy(n, r)
@@ -191,7 +366,9 @@ class RealWorld:
         if v is None or isinstance(v, (bool, int, float, str)):
             return v
         if isinstance(v, tuple) and len(v) == 2 and \
-                id(v[0]) in self.names and v[1] is self.clock:
+                id(v[0]) in self.names and \
+                any(v[1] is c for c in self.clocks):
+            # (routine, clock); which clock is not decided by the statement
             return 'RC:' + self.names[id(v[0])]
         if v is self.stm.FlowVar._UNBOUND:
             return rr.UNBOUND
@@ -205,17 +382,20 @@ class RealWorld:
     def invoke(self, tgt, meth, *args):
         """-> (plain outcome, raw value, exception)"""
         try:
-            v = getattr(self.routines[tgt], meth)(*args)
-        except Exception as e:
-            return ['exc', type(e).__name__], None, e
+            if meth == '__next__':
+                v = next(iter(self.routines[tgt]))  # the iterator protocol
+            else:
+                v = getattr(self.routines[tgt], meth)(*args)
+        except (Exception, _Abort) as e:
+            return ['exc', _clsname(e)], None, e
         return ['ret', self.plain(v)], v, None
 
     def _spy(self, n, r):
         def awake(clock):
             try:
                 v = type(r).__awake__(r, clock)
-            except Exception as e:
-                self.awake.append([n, ['exc', type(e).__name__]])
+            except (Exception, _Abort) as e:
+                self.awake.append([n, ['exc', _clsname(e)]])
                 raise
             self.awake.append([n, ['ret', self.plain(v)]])
             return v
@@ -291,6 +471,15 @@ class RealWorld:
                 last = yield last
             elif a == 'return':
                 return
+            elif a == 'embed':
+                if len(act) > 2 and act[2] == 'func':
+                    last = yield from self.stm.embed(self.routines[act[1]],
+                                                     last)
+                else:
+                    last = yield from self.routines[act[1]].__embed__(last)
+                self._check_inside(name, self.routines[name],
+                                   self.routines[name]._seconds,
+                                   f'embedding {act[1]}')
             elif a == 'wait':
                 yield from self.conds[act[1]].wait()
             elif a == 'fvget':
@@ -304,7 +493,7 @@ class RealWorld:
         for idx, act in enumerate(self._script(name, spec)):
             if act[0] == 'return':
                 return
-            if act[0] in ('yield', 'echo', 'wait', 'fvget'):
+            if act[0] in ('yield', 'echo', 'wait', 'fvget', 'embed'):
                 raise core.HarnessError('yield in a plain function body')
             last = self._act(name, idx, act, last)
 
@@ -314,7 +503,9 @@ class RealWorld:
         r = self.routines[name]
         a = act[0]
         if a == 'raise':
-            raise {'ValueError': ValueError}[act[1]]('body')
+            if act[1] in ('StopStream', 'PausedStream'):
+                raise getattr(stm, act[1])
+            raise RAISES[act[1]]('body')
         elif a == 'yar':
             raise stm.YieldAndReset(act[1])
         elif a == 'ay':
@@ -372,6 +563,10 @@ class RealWorld:
                   [self.ttname(t) for t in x.condition._waiting_threads]]
               for f, x in self.fvs.items()}
         return [rs, cs, fs, [[t - now, n] for t, n in self.queue()]]
+
+
+def _clsname(e):
+    return 'Abort' if isinstance(e, _Abort) else type(e).__name__
 
 
 def _cmp_common(w, ref, tag, dis):
@@ -435,6 +630,8 @@ def _step(w, ref, dis, compare_pending):
     sched.queue = one
     try:
         sched.run()
+    except _Abort:
+        pass        # ClockTask._wakeup only absorbs Exception; the spy saw it
     finally:
         sched.queue = real
     if one.popped != [(time, ct)]:
@@ -481,12 +678,12 @@ class LifeSys:
             return [['body', b] for b in life_bodies(self.params['set'])]
         o = [['next']]
         if self.body.get('send'):
-            o.append(['send', 3])
+            o += [['send', 3], ['send', 0]]
         o += [['pause'], ['resume'], ['stop'], ['reset'], ['play']]
         if 'inner' in self.body:
             o.append(['inext'])
-            if self.params['set'] != 'quick':
-                o += [['istop'], ['ireset']]
+            if self.params['set'] not in ('quick', 'audit-quick'):
+                o += [['istop'], ['ireset'], ['ipause'], ['iresume']]
         if not self.w.main._clock_scheduler.queue.empty():
             o.append(['step'])
         return o
@@ -496,11 +693,18 @@ class LifeSys:
         if name == 'body':
             self.body = op[1]
             specs = {'outer': op[1]['outer']}
-            if 'inner' in op[1]:
-                specs['inner'] = op[1]['inner']
-            self.w = RealWorld(specs)
+            for n in ('inner', 'third'):
+                if n in op[1]:
+                    specs[n] = op[1][n]
+            self.w = RealWorld(specs, opts=op[1])
             self.ref = rr.RefWorld(specs)
-            return []
+            dis = []
+            for n in self.w.played_at_creation:     # Routine.run(f)
+                self.ref.r[n].call('play')
+            if self.w.played_at_creation:
+                _cmp_common(self.w, self.ref, 'run', dis)
+                dis += self._owed()
+            return dis
         w, ref = self.w, self.ref
         del w.log[:], w.problems[:], ref.log[:]
         dis = []
@@ -516,10 +720,17 @@ class LifeSys:
                 'inext': ('inner', 'next', ()),
                 'istop': ('inner', 'stop', ()),
                 'ireset': ('inner', 'reset', ()),
+                'ipause': ('inner', 'pause', ()),
+                'iresume': ('inner', 'resume', ()),
             }.get(name, ('outer', name, ()))
             before = ref.r[tgt].state
             t0 = w.main.main_tt._m_seconds
-            obs, _, _ = w.invoke(tgt, meth, *args)
+            if name == 'next' and self.body.get('iter'):
+                obs, _, _ = w.invoke(tgt, '__next__')
+            elif name in ('play', 'resume'):
+                obs, _, _ = w.invoke(tgt, meth, *w.xclock)
+            else:
+                obs, _, _ = w.invoke(tgt, meth, *args)
             if meth == 'play':
                 exp = ref.r[tgt].call('play',
                                       observed=w.routines[tgt].state.name)
@@ -532,6 +743,8 @@ class LifeSys:
                             f'state {before}'))
             dis += w.check_main(t0, f'{tgt}.{meth}{args}')
         _cmp_common(w, ref, tag, dis)
+        if not dis:
+            dis += self._owed()
         if ref.reentered:
             # everything the library does after it let a running routine be
             # re-entered is one disagreement class (the current-thread kinds
@@ -546,6 +759,20 @@ class LifeSys:
         self.last = [obs, {n: r.state.name for n, r in w.routines.items()}]
         self.tainted = bool(dis)
         return dis
+
+    def _owed(self):
+        """A routine made playable by play() / resume() / Routine.run() (from
+        outside or from a body) or by a numeric yield on the clock is queued
+        on the NRT scheduler until that wake-up is delivered (a routine that
+        is played and never woken up does not play)."""
+        queued = {n for _, n in self.w.queue()}
+        miss = [n for n, v in self.ref.pending.items()
+                if v and n not in queued and self.ref.advances(n)]
+        if miss:
+            return [('wakeup-missing-after-play', sorted(miss),
+                     sorted(queued), 'routines with a wake-up owed by play / '
+                     'resume that are not in the NRT scheduler queue')]
+        return []
 
     def key(self):
         if self.w is None:
@@ -640,6 +867,42 @@ COND_CONFIGS = {
                 'fvs': ['f0'],
                 'ops': [['play', 'w0'], ['play', 'w1'], ['fvsignal', 'f0'],
                         ['fvset', 'f0', 7]]},
+    # audit: the waiting happens in a routine EMBEDDED in the playing one
+    # (yield from inner.__embed__(inval) / embed(inner, inval)): the playing
+    # routine is the one that is parked and resumed (TimeThread.thread_player)
+    'nestwait': {'routines': {'w0': G([['embed', 'i0'], YX]),
+                              'i0': G([['wait', 'c0'], Y5, ['wait', 'c0']]),
+                              'w1': G([Y5, ['embed', 'i1', 'func'], YX]),
+                              'i1': G([['wait', 'c0'], ['yield', 0]])},
+                 'conds': ['c0'],
+                 'ops': [['play', 'w0'], ['play', 'w1'], ['set', 'c0', True],
+                         ['set', 'c0', False], ['signal', 'c0'],
+                         ['unhang', 'c0']]},
+    # two levels of embedding, flow variable read in the innermost routine
+    'nestflow': {'routines': {'w0': G([['embed', 'i0'], EC]),
+                              'i0': G([['embed', 'j0'], EC]),
+                              'j0': G([['fvget', 'f0'], EC, ['fvget', 'f0'],
+                                       EC])},
+                 'fvs': ['f0'],
+                 'ops': [['play', 'w0'], ['fvset', 'f0', 0.5],
+                         ['fvsignal', 'f0'], ['fvset', 'f0', 8]]},
+    # audit: falsy values bound to flow variables (0, None, False, '')
+    'flowfalsy': {'routines': {'w0': G([['fvget', 'f0'], ['fvget', 'f1'],
+                                        ['fvget', 'f2'], EC]),
+                               'w1': G([Y5, ['fvget', 'f1'], EC,
+                                        ['fvget', 'f3'], EC])},
+                  'fvs': ['f0', 'f1', 'f2', 'f3'],
+                  'ops': [['play', 'w0'], ['play', 'w1'], ['fvset', 'f0', 0],
+                          ['fvset', 'f1', None], ['fvset', 'f2', False],
+                          ['fvset', 'f3', ''], ['fvset', 'f1', 0]]},
+    # audit: a parked waiter is paused / resumed
+    'pausing': {'routines': {'w0': G([['wait', 'c0'], YX, ['wait', 'c0'],
+                                      YX]),
+                             'w1': G([Y5, ['wait', 'c0'], YX])},
+                'conds': ['c0'],
+                'ops': [['play', 'w0'], ['play', 'w1'], ['pause', 'w0'],
+                        ['resume', 'w0'], ['next', 'w0'], ['set', 'c0', True],
+                        ['set', 'c0', False], ['signal', 'c0']]},
     # a condition and a flow variable together
     'mixed': {'routines': {'w0': G([['wait', 'c0'], ['fvget', 'f0'], EC]),
                            'w1': G([['fvget', 'f0'], ['wait', 'c0'], EC])},
@@ -691,10 +954,13 @@ class CondSys:
                     ref.r[op[1]].call(
                         'play', observed=w.routines[op[1]].state.name)
                     exp = rr.ret(None)
-                elif name in ('stop', 'reset'):
+                elif name in ('stop', 'reset', 'pause', 'resume'):
                     getattr(w.routines[op[1]], name)()
                     ref.r[op[1]].call(name)
                     exp = rr.ret(None)
+                elif name == 'next':
+                    exp = ref.r[op[1]].call('next')
+                    xobs, _, _ = w.invoke(op[1], 'next')
                 elif name == 'set':
                     w.conds[op[1]].test = w.testval(op[2])
                     ref.set(op[1], op[2])
@@ -720,12 +986,12 @@ class CondSys:
                     w.fvs[op[1]].value = op[2]
                 else:
                     raise core.HarnessError(f'bad op {op}')
-                obs = rr.ret(None)
+                obs = xobs if name == 'next' else rr.ret(None)
             except core.HarnessError:
                 raise
             except Exception as e:
                 obs = rr.exc(type(e).__name__)
-                if name != 'fvset':
+                if name not in ('fvset', 'next'):
                     exp = rr.ret(None)
             if not rr.outcome_matches(exp, obs):
                 dis.append((f'{name}-result', exp, obs, str(op)))
@@ -974,23 +1240,36 @@ import json
 import sc3
 sc3.init('nrt', verbosity='CRITICAL')
 from sc3.base.main import main
-from sc3.base.stream import Routine, YieldAndReset, AlwaysYield
+from sc3.base import stream as stm
+from sc3.base.stream import Routine, routine, YieldAndReset, AlwaysYield
+from sc3.base.clock import TempoClock, AppClock
 
 HISTORY = json.loads(%r)
 body = HISTORY[0][1]
 R, runs = {}, {}
+XCLOCK = {'tempo': lambda: (TempoClock(2.0), 1),
+          'app': lambda: (AppClock, None)}.get(body.get('clk'), tuple)()
+
+
+class Abort(BaseException):
+    pass
 
 
 def call(tgt, meth, *a):
     try:
+        if meth == '__next__':
+            return ['ret', next(iter(R[tgt]))]
         return ['ret', getattr(R[tgt], meth)(*a)]
-    except Exception as e:
+    except (Exception, Abort) as e:
         return ['exc', type(e).__name__, e]
 
 
 def act(name, a, last):
     if a[0] == 'raise':
-        raise ValueError('body')
+        if a[1] in ('StopStream', 'PausedStream'):
+            raise getattr(stm, a[1])
+        raise {'ValueError': ValueError, 'KeyError': KeyError,
+               'Abort': Abort}[a[1]]('body')
     if a[0] == 'yar':
         raise YieldAndReset(a[1])
     if a[0] == 'ay':
@@ -1020,6 +1299,11 @@ def make(name, spec):
                 last = yield last
             elif a[0] == 'return':
                 return
+            elif a[0] == 'embed':
+                if len(a) > 2:
+                    last = yield from stm.embed(R[a[1]], last)
+                else:
+                    last = yield from R[a[1]].__embed__(last)
             else:
                 last = act(name, a, last)
 
@@ -1033,22 +1317,36 @@ def make(name, spec):
     return (lambda inval: fn(inval)) if spec.get('param') else (lambda: fn())
 
 
-for name in ('outer', 'inner'):
+for name in ('outer', 'inner', 'third'):
     if name in body:
-        R[name] = Routine(make(name, body[name]))
+        f = make(name, body[name])
+        ctor = body.get('ctor') if name == 'outer' else None
+        R[name] = {'decorator': routine,
+                   'run': lambda f: Routine.run(f, *XCLOCK),
+                   'drun': lambda f: routine.run(*XCLOCK)(f)}.get(
+                       ctor, Routine)(f)
 for op in HISTORY[1:]:
     if op[0] == 'step':
         q = main._clock_scheduler.queue
         t, ct = q.pop()
-        ct._wakeup(t)
+        try:
+            ct._wakeup(t)
+        except Abort:
+            pass
         out = 'one scheduler task run'
     else:
         tgt, meth, a = {'next': ('outer', 'next', ()),
                         'send': ('outer', 'next', tuple(op[1:])),
+                        'play': ('outer', 'play', XCLOCK),
+                        'resume': ('outer', 'resume', XCLOCK),
                         'inext': ('inner', 'next', ()),
                         'istop': ('inner', 'stop', ()),
-                        'ireset': ('inner', 'reset', ())}.get(
+                        'ireset': ('inner', 'reset', ()),
+                        'ipause': ('inner', 'pause', ()),
+                        'iresume': ('inner', 'resume', ())}.get(
                             op[0], ('outer', op[0], ()))
+        if op[0] == 'next' and body.get('iter'):
+            meth = '__next__'
         out = call(tgt, meth, *a)[:2]
     print(op, '->', out, {n: r.state.name for n, r in R.items()},
           'current_tt is main_tt:', main.current_tt is main.main_tt)
@@ -1140,16 +1438,31 @@ def main(ctx):
         'the failing ones and those made inside bodies) result or exception '
         'class, Routine.state of every routine, main.current_tt and the '
         'caller\'s logical time are compared with '
-        'mc/oracles/routine_ref.py. cond: E2 BFS over play / test=True|False '
+        'mc/oracles/routine_ref.py. life/audit sets (same operations, own '
+        'BFS): bodies over falsy / None values (yield 0|None|False, '
+        'AlwaysYield(0|None), YieldAndReset(0|None), next(0)), failures that '
+        'are not Exceptions, hand-raised StopStream / PausedStream / '
+        'KeyError, self.play|resume and inner.stop|pause|resume|reset|play '
+        'from bodies, yield from inner.__embed__(v) / embed(inner, v) of 11 '
+        'inner bodies, three levels of nesting with call-backs, routines '
+        'made by routine(f) / Routine.run(f) / routine.run()(f), builtin '
+        'next(r), play / resume with an explicit TempoClock + quant or '
+        'AppClock; additionally every wake-up owed by play / resume / a '
+        'numeric yield on the clock must be queued on the NRT scheduler. '
+        'cond: E2 BFS over play / test=True|False '
         '/ test=callable reading a flag / flag flips / signal / unhang / '
         'value=v / value=w / flowvar.condition.signal() / stop / reset / '
         'scheduler step with 1-3 routines waiting on Condition (bool or '
-        'callable test) / FlowVar (also signalling from inside routines): '
+        'callable test) / FlowVar (also signalling from inside routines; '
+        'waiting inside routines embedded 1-2 levels deep in the playing '
+        'one; flow variables bound to 0 / None / False / ""; parked waiters '
+        'paused, resumed and stepped with next() from outside): '
         'every wake-up result equals the '
         'reference, a wake-up that nobody owes must not run a body, an owed '
-        'wake-up must be queued. rt (thorough): 31 programs with two waiters '
+        'wake-up must be queued. rt: 31 programs with two waiters '
         'on different clocks and a signalling thread / routine on a third, '
-        'every schedule with <= 2 preemptions. States deduplicated on '
+        'every schedule with <= 1 (quick) / <= 2 (thorough) preemptions. '
+        'States deduplicated on '
         '(reference state, Routine attributes, generator position, '
         'scheduler queue relative to now). Non-trivial = the routine changed '
         'life-cycle state at least twice (life), a parked routine was '
@@ -1164,7 +1477,11 @@ def main(ctx):
         'required), which queued task the NRT scheduler pops next (the '
         'implementation\'s queue is followed), extra queue entries that '
         'cannot run a body (routine Done / Paused), the logical time at '
-        'which a released waiter resumes',
+        'which a released waiter resumes, which clock object a routine is '
+        'scheduled on / receives as (routine, clock)',
+        'a body failure that is not an Exception is the private class '
+        'mc.checks.c11._Abort(BaseException); the scheduler step absorbs it '
+        '(ClockTask._wakeup only absorbs Exception)',
         'one scheduler step = the library\'s ClockScheduler.run() with its '
         'queue wrapped so that it reports empty after one pop; '
         '__awake__ results are observed by an instance-level wrapper that '
@@ -1173,10 +1490,19 @@ def main(ctx):
         '(mc/vthreading.py), no lateness deviations']
     quick = ctx.tier == 'quick'
     ctx.extra['life_bodies_quick_set'] = len(life_bodies('quick'))
+    ctx.extra['life_bodies_audit_quick_set'] = len(life_bodies('audit-quick'))
     if quick:
         bfs(ctx, 'life', {'set': 'quick'}, 1 + 8,
             'life: quick body set + <= 8 operations')
+        bfs(ctx, 'life', {'set': 'audit-quick'}, 1 + 6,
+            'life: audit body set (quick) + <= 6 operations')
     else:
+        ctx.extra['life_bodies_audit_thorough_set'] = \
+            len(life_bodies('audit-thorough'))
+        bfs(ctx, 'life', {'set': 'audit-quick'}, 1 + 8,
+            'life: audit body set (quick) + <= 8 operations')
+        bfs(ctx, 'life', {'set': 'audit-thorough'}, 1 + 5,
+            'life: audit body set (thorough) + <= 5 operations')
         ctx.extra['life_bodies_thorough_set'] = len(life_bodies('thorough'))
         bfs(ctx, 'life', {'set': 'quick'}, 1 + 10,
             'life: quick body set + <= 10 operations')
@@ -1185,8 +1511,15 @@ def main(ctx):
     for cfg in sorted(COND_CONFIGS):
         bfs(ctx, 'cond', {'config': cfg}, 12 if quick else 24,
             f'cond:{cfg}', batch=8)
-    if not quick:
-        progs = rt_programs()
+    progs = rt_programs()
+    ctx.extra['rt_programs'] = len(progs)
+    if quick:
+        # audit: the RT half also runs in the quick tier, one preemption
+        jobs = [{'name': n, 'how': h, 'prog': p, 'max_pre': 1, 'max_late': 0}
+                for n, h, p in progs]
+        progenum.run(ctx, MODNAME, 'work_rt', jobs, mode='rt',
+                     bound='rt: <= 1 preemption')
+    else:
         # the program with two signalling threads waking at the same instant
         # has ~30 times more schedules: one preemption there
         jobs = [{'name': n, 'how': h, 'prog': p,
@@ -1194,4 +1527,3 @@ def main(ctx):
                 for n, h, p in progs]
         progenum.run(ctx, MODNAME, 'work_rt', jobs, mode='rt',
                      bound='rt: <= 2 preemptions (two signalling threads: <= 1)')
-        ctx.extra['rt_programs'] = len(progs)
